@@ -12,7 +12,7 @@ pub const ABCX: [char; 4] = ['a', 'b', 'c', 'x'];
 /// β1: newline, a wide 3-byte character, a zero-width combining mark, tab
 pub const BETA1: [char; 4] = ['\n', '中', '\u{301}', '\t'];
 /// β2: 2-byte, 4-byte wide, zero-width 3-byte, control
-pub const BETA2: [char; 4] = ['é', '😀', '\u{200B}', '\u{7}'];
+pub const BETA2: [char; 4] = ['§', '😀', '\u{200B}', '\u{7}'];
 
 pub fn bind(r: &Re, beta: &[char; 4]) -> Re {
     let b = *beta;
@@ -43,6 +43,7 @@ fn plan(prop: &'static str, proj: Proj, max_len: usize, max_dev: usize) -> Plan 
         check_probe_neutral: true,
         sweep_all: false,
         pieces: false,
+        clone_depth: 3,
     }
 }
 
@@ -725,16 +726,27 @@ pub fn groups(prop: &str, tier: &str) -> Vec<Group> {
             specs.extend(errors_family().into_iter().step_by(if q { 17 } else { 5 }));
             let mut p = plan("C15", Proj::Clones, if q { 4 } else { 5 }, if q { 0 } else { 1 });
             p.check_probe_neutral = false;
+            p.clone_depth = if q { 2 } else { 3 };
             let mut pb = p.clone();
             pb.alphabet = vec!['A', 'b', 'Z', ' '];
             pb.max_len = if q { 4 } else { 5 };
             let tables = vec![
                 Spec::single(vec![ret(plus(builtin("uppercase"))), ret(plus(builtin("lowercase"))), rule(ch(' '), Kind::Skip)], "two_tables"),
-                Spec::single(vec![ret(cat(builtin("XID_Start"), star(builtin("XID_Continue")))), ret(plus(builtin("numeric"))), ret(ch(' '))], "two_tables"),
-                Spec::single(vec![ret(plus(builtin("lowercase"))), Rule { re: builtin("alphabetic"), ctx: Some(builtin("uppercase")), kind: Kind::Act(D_RETURN) }, ret(Re::Any)], "two_tables"),
+                Spec::single(vec![ret(plus(builtin("ascii_punctuation"))), Rule { re: builtin("numeric"), ctx: Some(builtin("uppercase")), kind: Kind::Act(D_RETURN) }, ret(Re::Any)], "two_tables"),
                 Spec::multi(vec![vec![rule(plus(builtin("uppercase")), Kind::Act(d_switch_return(1))), ret(Re::Any)], vec![rule(plus(builtin("lowercase")), Kind::Act(d_switch_return(0))), ret(ch(' '))]], "two_tables"),
             ];
-            vec![Group { plan: p, specs }, Group { plan: pb, specs: tables }]
+            // wide, ambiguous-width and zero-width characters (location bookkeeping is per lexer value)
+            let mut pw = p.clone();
+            pw.alphabet = BETA2.to_vec();
+            pw.max_len = if q { 3 } else { 4 };
+            let mut pw1 = pw.clone();
+            pw1.alphabet = BETA1.to_vec();
+            vec![
+                Group { plan: p, specs },
+                Group { plan: pb, specs: tables },
+                Group { plan: pw, specs: wide_family(&BETA2, if q { 4 } else { 8 }) },
+                Group { plan: pw1, specs: wide_family(&BETA1, if q { 3 } else { 8 }) },
+            ]
         }
         "C13" => {
             // three generated membership-test shapes per built-in: per-range arms (`$$n`), guard
